@@ -179,6 +179,7 @@ type httpFaultSpec struct {
 	// diagnostics of the gun that read or rewrite the request and the response on the way
 	Trace, Dump bool
 	AnswLog     string // "", all, warning, error
+	DebugLog    bool   // debug-level logger: the http guns log every request and read the answer's body for the log
 	// NamedDown: the target is given by name and refuses the connection the gun makes when it is built (the pre-resolve
 	// of the dns-cache option fails): the gun keeps the name and every later dial goes through the DNS-caching dialer
 	NamedDown bool
@@ -234,6 +235,7 @@ func genHTTPFaultSpec(r *R, faults bool) httpFaultSpec {
 	if w.Draw(3) == 0 {
 		sp.Trace, sp.Dump = w.Bool(), w.Bool()
 		sp.AnswLog = []string{"", "all", "warning", "error"}[w.Draw(4)]
+		sp.DebugLog = w.Draw(2) == 0
 	}
 	for i := 0; i < sp.Entries; i++ {
 		tag := ""
@@ -281,7 +283,7 @@ func (sp httpFaultSpec) describe() map[string]any {
 		bs = append(bs, fmt.Sprintf("%s/%d", b.Kind, b.Status))
 	}
 	return map[string]any{"entries": sp.Entries, "passes": sp.Passes, "instances": sp.Inst, "gun": sp.Gun, "auto_tag": sp.AutoTag, "uri_elements": sp.URIElems, "no_tag_only": sp.NoTagOnly,
-		"keep_alive": sp.KeepAlive, "tags": sp.Tags, "paths": sp.Paths, "methods": sp.Methods, "peer": bs, "conn_faults": sp.ConnFaults, "format": sp.Format, "latency": sp.Lat.String(), "chunk": sp.Chunk, "follow_redirects": sp.FollowRedirects, "ssl": sp.SSL, "connect_ssl": sp.ConnectSSL, "tls_hang_every_third_conn": sp.TLSHang, "named_target_down_at_start": sp.NamedDown, "httptrace": fmt.Sprintf("trace=%v dump=%v", sp.Trace, sp.Dump), "answlog": sp.AnswLog}
+		"keep_alive": sp.KeepAlive, "tags": sp.Tags, "paths": sp.Paths, "methods": sp.Methods, "peer": bs, "conn_faults": sp.ConnFaults, "format": sp.Format, "latency": sp.Lat.String(), "chunk": sp.Chunk, "follow_redirects": sp.FollowRedirects, "ssl": sp.SSL, "connect_ssl": sp.ConnectSSL, "tls_hang_every_third_conn": sp.TLSHang, "named_target_down_at_start": sp.NamedDown, "httptrace": fmt.Sprintf("trace=%v dump=%v", sp.Trace, sp.Dump), "answlog": sp.AnswLog, "debug_log": sp.DebugLog}
 }
 
 func runHTTPFaults(r *R, sp httpFaultSpec) *httpFaultOutcome {
@@ -340,7 +342,7 @@ func runHTTPFaults(r *R, sp httpFaultSpec) *httpFaultOutcome {
 	var peer *rawPeer
 	var proxyFaults int32
 	arrivals := make([]int, sp.Entries)
-	out.Res = runHTTPPool(r, httpPoolSpec{Ammo: ammo, Gun: gun, Instances: sp.Inst, Tokens: out.Fired + 2, Files: map[string][]byte{"/ammo/ammo.txt": []byte(b.String())}, Horizon: 2 * time.Hour},
+	out.Res = runHTTPPool(r, httpPoolSpec{Ammo: ammo, Gun: gun, Instances: sp.Inst, Tokens: out.Fired + 2, DebugLog: sp.DebugLog, Files: map[string][]byte{"/ammo/ammo.txt": []byte(b.String())}, Horizon: 2 * time.Hour},
 		func(nw *simnet.Net) {
 			nw.Latency = sp.Lat
 			switch sp.ConnFaults {
